@@ -168,11 +168,19 @@ def run_engine(ctx):
         m = re.match(r'<<"PROP", <<"(C\d+)", "(\w+)">>, (\d+), (\d+)>>', item)
         if m:
             pid, name, h, i = m.group(1), m.group(2), int(m.group(3)), int(m.group(4))
+            if name == "ExpireExact":
+                x = [y for y in recs if y["k"] == "expire" and y["h"] == h][0]
+                n = len([y for y in steps if y["h"] == h])
+                res["fail"].append({"prop": pid, "pred": name, "h": h, "i": n, "data": "ExpireSessions probe", "cmd": "", "t": "expire",
+                                    "server": False, "det": "", "snap": "", "snapat": 0, "lines": "",
+                                    "panics": "ages (id, rid, age-expiration s) %s proposed %s" % (x["ages"], x["expire"]),
+                                    "program": history_upto(h, n)})
+                continue
             x = byhi[(h, i)]
             res["fail"].append({"prop": pid, "pred": name, "h": h, "i": i, "data": x["e"].get("data", ""),
                                 "cmd": x["e"].get("cmd", ""), "t": x["e"]["t"], "server": bool(x["e"].get("haspfx")),
                                 "det": x.get("det", ""), "snap": x.get("snap", ""), "snapat": x.get("snapat", 0),
-                                "lines": x.get("lines", ""), "panics": x.get("panics", ""),
+                                "lines": x.get("lines", ""), "panics": x.get("panics", ""), "view": x.get("view", ""),
                                 "program": history_upto(h, i)})
             continue
         m = re.match(r'<<"CONF", "([\w-]+)", (\d+), (\d+)(.*)>>$', item, re.S)
@@ -273,13 +281,20 @@ def report(ctx, pid, extra_note=None):
     res = run_replay(ctx, ctx.replay) if getattr(ctx, "replay", None) else get_engine(ctx)
     mine = [f for f in res["fail"] if f["prop"] == pid]
     seen = set()
+    diverged = set()
     for f in mine:
+        if f["pred"] in ("ReplicasAgree", "SaveLoadInvisible"):
+            # once two instances have diverged every later step differs too: report the first step per history
+            if (f["pred"], f["h"]) in diverged:
+                continue
+            diverged.add((f["pred"], f["h"]))
         sig = signature(f)
         if sig in seen:
             continue
         seen.add(sig)
-        what = "%s false after entry %d of history %d: %r %s" % (
-            f["pred"], f["i"], f["h"], f["data"][:80], (f["det"] or f["snap"] or f["lines"] or f["panics"])[:200])
+        detail = {"ExpireExact": f["panics"], "PublicViewMatchesState": f.get("view", ""), "ReplicasAgree": f["det"], "SaveLoadInvisible": "cut after entry %s: %s" % (f["snapat"], f["snap"]),
+                  "OneLine": f["lines"], "NoPanic": f["panics"]}.get(f["pred"], "")
+        what = "%s false after entry %d of history %d: %r %s" % (f["pred"], f["i"], f["h"], f["data"][:80], detail[:300])
         ctx.violation(sig, what, {"program": f["program"], "how": "VERIF_IRC_IN=<file with {\"prog\": program}> go test -run TestVerifIRC (see checks/irc_common.py)"})
     for c in res["conf"][:10]:
         ctx.drift("IRC.tla Step differs from the code (%s) at history %d entry %d: %r %s" % (
